@@ -283,6 +283,45 @@ fn eval_det(t: &mut Toks) -> R<String> {
                 h.mpoly(&r)
             })
         }
+        "pariter" => {
+            // geo-types' rayon iterators on Multi* (feature `multithreading`): an order-preserving
+            // parallel map must give what the sequential map gives, member for member
+            use geo::algorithm::area::Area;
+            use geo::algorithm::line_measures::{Euclidean, Length};
+            use rayon::prelude::*;
+            let g = t.geom()?;
+            twice(&|h| match &g {
+                Geometry::MultiPolygon(m) => {
+                    let par: Vec<(f64, usize)> = m.par_iter().map(|p| (p.signed_area(), p.exterior().0.len())).collect();
+                    let seq: Vec<(f64, usize)> = m.iter().map(|p| (p.signed_area(), p.exterior().0.len())).collect();
+                    h.u64((par.len() == seq.len() && par.iter().zip(&seq).all(|(a, b)| a.0.to_bits() == b.0.to_bits() && a.1 == b.1)) as u64);
+                    for (a, n) in par {
+                        h.f(a);
+                        h.u64(n as u64);
+                    }
+                    let mut mm = m.clone();
+                    mm.par_iter_mut().for_each(|p| p.exterior_mut(|e| e.0.reverse()));
+                    h.mpoly(&mm);
+                    let owned: Vec<Polygon<f64>> = mm.into_par_iter().collect();
+                    h.mpoly(&MultiPolygon(owned));
+                }
+                Geometry::MultiLineString(m) => {
+                    let par: Vec<f64> = m.par_iter().map(|l| Euclidean.length(l)).collect();
+                    for v in par {
+                        h.f(v);
+                    }
+                    let owned: Vec<LineString<f64>> = m.clone().into_par_iter().collect();
+                    h.mls(&MultiLineString(owned));
+                }
+                Geometry::MultiPoint(m) => {
+                    let par: Vec<Coord<f64>> = m.par_iter().map(|p| Coord { x: p.x() * 0.1, y: p.y() + p.x() }).collect();
+                    h.cs(&par);
+                    let owned: Vec<Point<f64>> = m.clone().into_par_iter().collect();
+                    h.cs(&owned.iter().map(|p| p.0).collect::<Vec<_>>());
+                }
+                _ => h.str("other"),
+            })
+        }
         "relate" => {
             let a = t.geom()?;
             let b = t.geom()?;
@@ -692,6 +731,24 @@ fn gen_case(rng: &mut Rng, index: u64) -> String {
             let which = *rng.pick(&["rdp", "vw", "vwp"]);
             let e = *rng.pick(&[0.0f64, 0.25, 0.5, 1.0, 2.0]);
             format!("C20.det simplify {} {} {}", which, proto::num(e), mp_str(&a))
+        }
+        19 if rng.chance(1, 2) => {
+            // Multi* with many members, so that rayon really splits the work
+            let g = match rng.below(3) {
+                0 => {
+                    let cnt = rng.range(1, 300) as usize;
+                    let v = scatter(rng, cnt, 40);
+                    Geometry::MultiPolygon(MultiPolygon(v.into_iter().flat_map(|m| m.0).collect::<Vec<_>>()))
+                }
+                1 => Geometry::MultiLineString(MultiLineString(
+                    (0..rng.range(1, 400)).map(|_| LineString(path_coords(&gen_path(rng, 8, None)))).collect(),
+                )),
+                _ => {
+                    let n = rng.range(1, 3000) as usize;
+                    Geometry::MultiPoint(MultiPoint(many_points(rng, n, 50).into_iter().map(Point).collect()))
+                }
+            };
+            format!("C20.det pariter {}", proto::geom(&g))
         }
         _ => {
             let a = gen_valid(rng, k);
